@@ -45,6 +45,15 @@ fn main() {
             if s.get_days() == 1 && two_days <= b { Some(format!("{a} until {b} = {s:?}, but a + 2d = {two_days} is still <= b (balanced result: 2d 50m)")) } else { None }
         });
     }
+    if on("F24") {
+        run("F24", || {
+            // RFC 3339 date-fullyear is exactly 4 digits: there is no RFC 3339 text for an instant before year 0
+            let ts: Timestamp = "-000001-06-15T12:00:00Z".parse().ok()?;
+            let text = ts.to_string();
+            let rfc3339_year = text.len() > 4 && text.as_bytes()[..4].iter().all(|b| b.is_ascii_digit()) && text.as_bytes()[4] == b'-';
+            if !rfc3339_year { Some(format!("Timestamp prints as {text} (ISO 8601 expanded year, not RFC 3339); Timestamp::MIN prints as {}", Timestamp::MIN)) } else { None }
+        });
+    }
     if on("F8") {
         run("F8", || {
             let tz = TimeZone::posix("EST5EDT,0/0,J365/25").ok()?;
